@@ -75,7 +75,10 @@ print("Round 5 (ids H<n>-<a|b|c>): the same request, one angle per sub-agent (en
 print("concurrency/re-entrancy/lifetime). Of these 18 only 2 were caught when they arrived; all 18 are caught now.")
 print("Round 6 (ids K<n>-<a|b|c>): once more, six angles, with the list of everything tried so far. Of 17, six were caught")
 print("when they arrived; 16 are caught now, and K2-c is not counted as a violation (section 12.2, sixth round). One")
-print("sub-agent of this round found defect D13 in the unmodified library (section 6).\n")
+print("sub-agent of this round found defect D13 in the unmodified library (section 6).")
+print("Round 7 (ids L<n>-<a|b|c>): six new angles. Of 16, four were caught when they arrived (two of them thanks to a")
+print("generator extension or a monitor added the same hour for a sibling change); 14 are caught now, L4-a and L4-b (value")
+print("copies of packets) are not counted as violations (section 12.2, seventh round).\n")
 print("### 13.3 Property-preserving changes by independent sub-agents (`seeded/S<n>-<a..d>/`): must stay silent\n")
 print("Realistic changes that keep all 19 properties to the letter but alter observable behaviour, written as bait for")
 print("over-strict checks (each with a `show_test.go` that demonstrates the behavioural difference; S: round 4, Q: round 6). All 19 quick checks")
